@@ -107,6 +107,27 @@ PROPS = {
                 "Non-trivial = an earlier use left undelivered output, an error or a mid-stream state, and the next input is non-empty.",
         "assumptions": COMMON_ASSUME,
     },
+    "C04": {
+        "level": "exploration",
+        "tests": [
+            {"name": "TestC04", "quick": 5000, "thorough": 80000},
+            {"name": "TestC04Ex", "kind": "plain"},
+        ],
+        "rule": "cases = (valid stream from the C02 generators, or such a stream cut at a drawn byte) x source schedule (all at once, 1-byte, drawn chunk sizes incl. (0,nil) reads and sizes around 16/328/4096, io.EOF delivered with the last bytes or alone) x entry point (NewReader(plain source), NewReader(*bufio.Reader of size s), Reset(*bufio.Reader of size s)), s in {16,17,31,64,327..329,4095..4097,64Ki,1Mi} x Read size sequence; plus, for small fixed streams, the two-chunk split at every byte offset and the 1-byte schedule (enumerated). "
+                "Oracle (metamorphic): bytes and final error equal those of the all-at-once run. Non-trivial = >=3 source reads, or destination size 1, or bufio size < 328.",
+        "assumptions": COMMON_ASSUME,
+    },
+    "C18": {
+        "level": "exploration",
+        "tests": [
+            {"name": "TestC18", "quick": 16000, "thorough": 240000, "levels": "one", "shards": {"quick": 12, "thorough": 16}},
+            {"name": "TestC18W", "quick": 2000, "thorough": 30000, "same_seed": True, "transcript": True, "shards": {"quick": 2, "thorough": 4}},
+        ],
+        "rule": "reader half (in one process, level switched at run time through the verif hook): inputs = valid streams, valid streams cut short, malformed streams with injected faults and >=600-byte tails, mutated streams, random bytes x Read sizes x source chunkings; for every runnable level a fresh Reader decodes the input; oracle: identical bytes and identical outcome kind (EOF / unexpected EOF / corrupt) across levels, and each run satisfies C03's reference-inflater oracle. "
+                "writer half (one process per level, same rapid seed): identical workload lists (data, flate/gzip/zlib setting, Write/Flush/Close ops, optional failing destination); each process checks what it emitted (flushed prefixes decode to the data so far, closed stream is a valid container) and records per-call error flags and decode digests; the driver requires the transcripts of all levels to be identical (compressed bytes are deliberately not compared). "
+                "Non-trivial (reader) = input has a Huffman block with >24 bytes of compressed data, i.e. the AVX2 loop is eligible, and >=2 levels ran; (writer) = non-empty data.",
+        "assumptions": COMMON_ASSUME + ["the run-time level switch is faithful for Readers because the decode dispatch re-reads the level on every call; Writers cache their encoder at init and are therefore run one process per level"],
+    },
 }
 
 # Texts for MANIFEST.json, per claimed property.
@@ -176,5 +197,17 @@ MANIFEST_TEXT = {
         "text": "Earlier uses are generated to leave every kind of residue (undelivered output, mid-block state, error state, a dictionary-capable or plain inflater inside zlib); the next input includes streams whose matches reach before their own start, which decode only if something of the earlier stream survived. The transcript must equal a new Reader's.",
         "note": "The fresh Reader is the model; its own correctness is C02/C03/C07's business.",
         "design_ref": "DESIGN.md section 4, C13",
+    },
+    "C04": {
+        "technique": "property-based testing (rapid), metamorphic relation over generated delivery schedules, bufio sizes, entry points and Read sizes; exhaustive split enumeration on small streams",
+        "text": "The same compressed bytes are delivered under generated schedules through the three entry points and with generated destination sizes; bytes and final error must equal the all-at-once run, which C02/C03 tie to the standard library.",
+        "note": "The harness owns the delivery schedule (synchronous io.Reader), so no timing is involved.",
+        "design_ref": "DESIGN.md section 4, C04",
+    },
+    "C18": {
+        "technique": "differential property-based testing (rapid) across acceleration levels: in-process level switching for Readers, per-level processes with identical seeds and transcript diffing for Writers",
+        "text": "Every generated input is decoded at each runnable acceleration level and the results compared with each other and with the reference oracle; writer workloads are replayed at each level from the same seed and their observable results (errors, decoded data, flushed prefixes) must coincide. All other writer-side checks additionally run at every level themselves.",
+        "note": "Levels the host cannot execute are skipped and listed in the evidence.",
+        "design_ref": "DESIGN.md section 4, C18",
     },
 }
